@@ -27,14 +27,11 @@ package verify
 //@ func isCPUSvnHigherOrEqual(pckCertCPUSvnComponents, sgxTcbcomponents) (r)
 //@   reveal cpuGE
 //@   ensures[iff] r <==> cpuGE(pckCertCPUSvnComponents, sgxTcbcomponents)
-//@   loop 0: invariant forall j :: 0 <= j && j <= rangeindex ==> pckCertCPUSvnComponents[j] >= sgxTcbcomponents[j].Svn
 
 //@ func isTdxTcbSvnHigherOrEqual(teeTcbSvn, tdxTcbcomponents) (r)
 //@   requires len(teeTcbSvn) == 16
 //@   reveal tdxGE
 //@   ensures[iff] r <==> tdxGE(teeTcbSvn, tdxTcbcomponents)
-//@   loop 0: invariant start <= i && (start == 0 || start == 2) && (start == 2 <==> teeTcbSvn[1] > 0)
-//@   loop 0: invariant forall j :: start <= j && j < i ==> teeTcbSvn[j] >= tdxTcbcomponents[j].Svn
 
 //@ func getMatchingTcbLevel(tcbLevels, tdReport, pckCertPceSvn, pckCertCPUSvnComponents) (r, err)
 //@   requires tdReport != nil && len(tdReport.TeeTcbSvn) == 16
@@ -44,7 +41,6 @@ package verify
 //@ |       && (forall j :: 0 <= j && j < k ==> !lvlMatch(tcbLevels[j], tdReport.TeeTcbSvn, pckCertPceSvn, pckCertCPUSvnComponents))
 //@ |       && r == tcbLevels[k])
 //@   ensures[no-match] err != nil ==> (forall j :: 0 <= j && j < len(tcbLevels) ==> !lvlMatch(tcbLevels[j], tdReport.TeeTcbSvn, pckCertPceSvn, pckCertCPUSvnComponents))
-//@   loop 0: invariant forall j :: 0 <= j && j <= rangeindex ==> !lvlMatch(tcbLevels[j], tdReport.TeeTcbSvn, pckCertPceSvn, pckCertCPUSvnComponents)
 
 // ---- QE TCB level: first level whose isvsvn is not above the report's ----
 
@@ -52,7 +48,6 @@ package verify
 //@   ensures[first-match] err == nil ==> (exists k :: 0 <= k && k < len(tcbLevels) && tcbLevels[k].Tcb.Isvsvn <= isvsvn
 //@ |       && (forall j :: 0 <= j && j < k ==> tcbLevels[j].Tcb.Isvsvn > isvsvn) && r == tcbLevels[k])
 //@   ensures[no-match] err != nil ==> (forall j :: 0 <= j && j < len(tcbLevels) ==> tcbLevels[j].Tcb.Isvsvn > isvsvn)
-//@   loop 0: invariant forall j :: 0 <= j && j <= rangeindex ==> tcbLevels[j].Tcb.Isvsvn > isvsvn
 
 //@ define qeUpToDate(levels, isvsvn) = exists k :: 0 <= k && k < len(levels) && levels[k].Tcb.Isvsvn <= isvsvn
 //@ |       && (forall j :: 0 <= j && j < k ==> levels[j].Tcb.Isvsvn > isvsvn) && levels[k].TcbStatus == "UpToDate"
@@ -72,8 +67,6 @@ package verify
 //@ |       && (exists k :: lvlFirst(tcbInfoTdxModuleIdentities[m].TcbLevels, uint32(teeTcbSvn[0]), k)))
 //@   ensures[level] err == nil ==> r != nil && (exists m :: modFirst(tcbInfoTdxModuleIdentities, teeTcbSvn, m)
 //@ |       && (exists k :: lvlFirst(tcbInfoTdxModuleIdentities[m].TcbLevels, uint32(teeTcbSvn[0]), k) && *r == tcbInfoTdxModuleIdentities[m].TcbLevels[k]))
-//@   loop 0: invariant forall j :: 0 <= j && j <= rangeindex ==> tcbInfoTdxModuleIdentities[j].ID != modID(teeTcbSvn)
-//@   loop 1: invariant forall j :: 0 <= j && j <= rangeindex ==> tdxModuleIdentity.TcbLevels[j].Tcb.Isvsvn > uint32(teeTcbSvn[0])
 
 // ---- the TCB-info verdict ----
 
@@ -277,8 +270,6 @@ package verify
 //@   ensures[conflict] options.CheckRevocations && !options.GetCollateral ==> err != nil
 //@   ensures[complete] options.chain.RootCertificate != nil && options.chain.IntermediateCertificate != nil && options.chain.PCKCertificate != nil
 //@ |     && pckChainOK(options) ==> err == nil
-//@   loop 0: invariant forall j :: 0 <= j && j <= rangeindex ==> *collateral.RootCaCrl.RevokedCertificates[j].SerialNumber != *intermediateCert.SerialNumber
-//@   loop 1: invariant forall j :: 0 <= j && j <= rangeindex ==> *collateral.PckCrl.RevokedCertificates[j].SerialNumber != *pckCert.SerialNumber
 
 // the three PEM blocks of the chain carried in the quote
 //@ opaque define chainBlocks(ch, cb) = pemOK(cb) && pemType(cb) == "CERTIFICATE" && certParses(pemBytes(cb)) && addr(ch.PCKCertificate) == parseCert(pemBytes(cb))
@@ -327,7 +318,6 @@ package verify
 //@   ensures[accept] err == nil ==> responseOK(signingPhrase, rootCertificate, signingCertificate, rawBody, rawSignature, crl, options, now)
 //@   ensures[conflict] options.CheckRevocations && !options.GetCollateral ==> err != nil
 //@   ensures[complete] responseOK(signingPhrase, rootCertificate, signingCertificate, rawBody, rawSignature, crl, options, now) ==> err == nil
-//@   loop 0: invariant forall j :: 0 <= j && j <= rangeindex ==> *crl.RevokedCertificates[j].SerialNumber != *signingCertificate.SerialNumber
 
 //@ opaque define tcbInfoOK(o) = o.collateral.TdxTcbInfo.TcbInfo.ID == "TDX" && o.collateral.TdxTcbInfo.TcbInfo.Version == 3 && len(o.collateral.TdxTcbInfo.TcbInfo.TcbLevels) > 0
 //@ |     && responseOK("Intel SGX TCB Signing", o.collateral.TcbInfoIssuerRootCertificate, o.collateral.TcbInfoIssuerIntermediateCertificate,
